@@ -40,14 +40,14 @@ static void prop(Tape &t, Ctx &c) {
         }
         psX509FreeCert(cert);
         psClearPubKey(&key);
-        leak.check(fmt("rc=%d", rc));
+        C09_LEAK_CHECK(leak, "rc=%d", rc);
     } else {
         LeakScope leak("matrixSslLoadPkcs12Mem");
         sslKeys_t *keys = NULL;
         VF_CHECK(matrixSslNewKeys(&keys, NULL) >= 0 && keys, "harness-newkeys", "matrixSslNewKeys failed");
         rc = matrixSslLoadPkcs12Mem(keys, in.p, (int32) in.n, ip, il, mpass ? mp : NULL, ml, 0);
         matrixSslDeleteKeys(keys);
-        leak.check(fmt("rc=%d", rc));
+        C09_LEAK_CHECK(leak, "rc=%d", rc);
     }
     if (rc >= 0) c.count((sel & 1) ? "loaded.sslkeys" : fmt("parsed.type%d.certs%d", ktype, ncerts > 3 ? 3 : ncerts));
     else if (rc == PS_AUTH_FAIL) c.count("rejected.auth");
